@@ -29,6 +29,8 @@ def theorem_cone(pid):
     pf = os.path.join(core.COQ, "Properties", pid + ".v")
     if not os.path.exists(pf):
         return None
+    extra_pfs = sorted(os.path.join(core.COQ, "Properties", f) for f in os.listdir(os.path.join(core.COQ, "Properties"))
+                       if f.startswith(pid) and f.endswith(".v") and f != pid + ".v")
     seen = set()
     order = []
 
@@ -43,12 +45,14 @@ def theorem_cone(pid):
                     visit(os.path.join(core.COQ, sub, name + ".v"))
         order.append(path)
     visit(pf)
-    src = open(pf).read()
+    for e in extra_pfs:
+        visit(e)
+    src = open(pf).read() + "".join(open(e).read() for e in extra_pfs)
     thms = re.findall(r"^\s*(?:Theorem|Corollary)\s+(\w+)", src, re.M)
     qed = 0
     for p in order:
         qed += len(re.findall(r"\b(?:Qed|Defined)\.", open(p).read()))
-    return {"file": pf, "files": order, "theorems": thms, "qed": qed}
+    return {"file": pf, "files": order, "theorems": thms, "qed": qed, "property_files": [pf] + extra_pfs}
 
 
 def forbidden_scan():
@@ -73,10 +77,13 @@ def forbidden_scan():
 
 def assumptions_of(pid):
     """Re-compile the property file alone and capture what Print Assumptions prints."""
-    pf = os.path.join("Properties", pid + ".v")
-    p = core.sh(["coqc", "-Q", ".", "Termemu", pf], cwd=core.COQ, check=False, timeout=600)
-    out = (p.stdout or b"").decode("utf8", "replace")
-    return p.returncode == 0, out
+    ok, out = True, ""
+    for f in sorted(os.listdir(os.path.join(core.COQ, "Properties"))):
+        if f.startswith(pid) and f.endswith(".v"):
+            p = core.sh(["coqc", "-Q", ".", "Termemu", os.path.join("Properties", f)], cwd=core.COQ, check=False, timeout=900)
+            out += (p.stdout or b"").decode("utf8", "replace")
+            ok = ok and p.returncode == 0
+    return ok, out
 
 
 def load_known():
